@@ -99,7 +99,7 @@ def inlineTreeX (c : XCfg) (src : Bytes) : GM.Inl.Node → Except Panic GM.Node
   | .codeSpan kids => do pure (.mk .codeSpan none (← inlineTreesX c src kids))
   | .emphasis lv kids => do
     let cs ← inlineTreesX c src kids
-    if c.strikethrough && lv == 0 then pure (.mk .strikethrough none cs)
+    if c.strikethrough && (lv == -3 || lv == -4) then pure (.mk .strikethrough none cs)
     else if c.tasklist && lv == -1 then pure (.mk (.taskCheckBox false) none cs)
     else if c.tasklist && lv == -2 then pure (.mk (.taskCheckBox true) none cs)
     else pure (.mk (.emphasis lv.toNat) none cs)
